@@ -1,6 +1,6 @@
 #!/usr/bin/env python3
 """Run every seeded mutant against every check (quick tier) and record which checks raise an alarm.
-Applies each patch to /repo, runs the checks, reverts. Writes seeded/<name>/meta.json:detected_by and seeded/MATRIX.md."""
+Applies each patch to the repository named by D42_REPO (default /repo), runs the checks, reverts. Writes seeded/<name>/meta.json:detected_by and seeded/MATRIX.md."""
 import json
 import os
 import subprocess
@@ -8,6 +8,7 @@ import sys
 
 HERE = os.path.dirname(os.path.abspath(__file__))
 IDS = ["C%02d" % i for i in range(1, 20)]
+REPO = os.environ.get("D42_REPO", "/repo")
 
 
 def main():
@@ -17,9 +18,9 @@ def main():
     for name in names:
         d = os.path.join(HERE, "seeded", name)
         meta = json.load(open(os.path.join(d, "meta.json")))
-        st = subprocess.run("git -C /repo status --porcelain", shell=True, stdout=subprocess.PIPE).stdout.decode()
-        assert not st.strip(), "/repo not clean"
-        subprocess.check_call(f"git -C /repo apply {d}/patch.diff", shell=True)
+        st = subprocess.run(f"git -C {REPO} status --porcelain", shell=True, stdout=subprocess.PIPE).stdout.decode()
+        assert not st.strip(), REPO + " not clean"
+        subprocess.check_call(f"git -C {REPO} apply {d}/patch.diff", shell=True)
         det = {}
         try:
             procs = {c: subprocess.Popen(f"./check {c} --tier quick", shell=True, cwd=HERE, stdout=subprocess.PIPE,
@@ -35,7 +36,7 @@ def main():
                     with open(os.path.join(os.environ.get("TMPDIR", "/tmp"), "d42-matrix-errors", f"{name}.{c}.log"), "w") as f:
                         f.write(out[-6000:])
         finally:
-            subprocess.check_call("git -C /repo checkout -- .", shell=True)
+            subprocess.check_call(f"git -C {REPO} checkout -- .", shell=True)
         meta["detected_by"] = det
         json.dump(meta, open(os.path.join(d, "meta.json"), "w"), indent=1)
         print(name, meta["property"], det.get(meta["property"], "MISSED"), det, flush=True)
